@@ -37,6 +37,17 @@ def classify_rewrite(t: ast.expr) -> dict:
         return {**r, "form": "replace-count-n", "anchored": False, "x": render(x), "a": render(a), "b": render(b)}
     if isinstance(t, ast.Call) and render(t.func) == "os.path.join" and len(t.args) == 2:
         b, rel = t.args
+        # join(b, x[len(a) + k:]): drops k characters after the prefix, i.e. assumes they are exactly one separator
+        if isinstance(rel, ast.Subscript) and isinstance(rel.slice, ast.Slice) and rel.slice.upper is None and rel.slice.lower is not None:
+            lo = rel.slice.lower
+            base, k = None, None
+            if isinstance(lo, ast.BinOp) and isinstance(lo.op, ast.Add) and isinstance(lo.right, ast.Constant) and isinstance(lo.left, ast.Call) and render(lo.left.func) == "len":
+                base, k = lo.left, lo.right.value
+            elif isinstance(lo, ast.Call) and render(lo.func) == "len":
+                base, k = lo, 0
+            if base is not None and len(base.args) == 1:
+                return {**r, "form": f"join-slice(+{k})", "anchored": False, "x": render(rel.value), "a": render(base.args[0]), "b": render(b),
+                        "why": "the slice drops a fixed number of characters after the prefix and re-joins: right only if exactly that many separators follow the prefix — wrong when the directory is spelled with a trailing separator or is the root"}
         if isinstance(rel, ast.Call) and render(rel.func) == "os.path.relpath" and len(rel.args) == 2:
             return {**r, "form": "relpath", "anchored": True, "x": render(rel.args[0]), "a": render(rel.args[1]), "b": render(b)}
     return r
